@@ -39,8 +39,8 @@ def plan(tier):
             tasks.append((cfg, 5 if not deep else 6, 0, False, 2))
             if cfg['imputer'] == 'joint' and cfg['model'] == 'scalar':
                 # capacity-bounded storages far beyond their capacity (evictions / in-place replacements between calls)
-                for st in ('Interval', 'Sequence', 'Geometric', 'Uniform'):
-                    tasks.append((dict(cfg, storage=st), 6, 1 if st in ('Geometric', 'Uniform') else 0, False, 2))
+                for st in ('Interval', 'Sequence', 'Geometric'):
+                    tasks.append((dict(cfg, storage=st), 5, 1 if st == 'Geometric' else 0, False, 2))
     tasks.sort(key=lambda t: -(t[2] or 0))
     return tasks
 
